@@ -856,7 +856,7 @@ impl LocalPeerService {
 
         let filtered = discret_services
             .database
-            .filter_existing_node(remote_nodes)
+            .filter_existing_node(room_id, remote_nodes)
             .await?;
         if !filtered.is_empty() {
             has_changes = true;
